@@ -272,6 +272,38 @@ class Ctx:
         self.stop = True
 
 
+def load_corpus():
+    """corpus/C17/*.json: {"kind": "pair", "e1": tree, "e2": tree} or {"kind": "range", "triple": [[e1, e2] x 3]}"""
+    import json
+    import os
+    pairs, ranges = [], []
+    d = os.path.join(common.ROOT, "corpus", PROP)
+    if os.path.isdir(d):
+        for fn in sorted(os.listdir(d)):
+            if fn.endswith(".json"):
+                c = json.load(open(os.path.join(d, fn)))
+                if c["kind"] == "pair":
+                    pairs.append((X.from_json(c["e1"]), X.from_json(c["e2"]), "corpus"))
+                elif c["kind"] == "range":
+                    ranges.append([(X.from_json(a), X.from_json(b), "corpus") for a, b in c["triple"]])
+    return pairs, ranges
+
+
+def ranges_coincide(tr):
+    """a grid valuation at which start, stop and step of the two ranges all coincide (or None)"""
+    vs = sorted({v for e1, e2, _ in tr for e in (e1, e2) for v in X.variables(e)})
+    for vals in X.grid(len(vs)):
+        env = [0] * len(X.VARS)
+        for v, z in zip(vs, vals):
+            env[v] = z
+        try:
+            if all(X.evalF(e1, env) == X.evalF(e2, env) for e1, e2, _ in tr):
+                return {X.VARS[v]: env[v] for v in vs}
+        except X.Undefined:
+            continue
+    return None
+
+
 def pair_payload(e1, e2, extra):
     return dict({"e1": X.fortran(e1), "e2": X.fortran(e2), "e1_tree": X.to_json(e1), "e2_tree": X.to_json(e2)}, **extra)
 
@@ -340,6 +372,15 @@ def run_ranges(ctx, b, triples):
                     return
         if ne:
             chk.correspondence_broken("never_equal returned True for a pair of ranges (the code never claims this)", case, 0, 1)
+            env = ranges_coincide(tr)
+            if env is not None:
+                ctx.failing({"kind": "range_never_equal", "triple": [[X.to_json(a), X.to_json(c)] for a, c, _ in tr],
+                             "range1": case["range1"], "range2": case["range2"],
+                             "observed": f"never_equal() returned True for two ranges that are identical at {env}",
+                             "expected": "never_equal is only claimed when the accesses differ for every valuation"},
+                            [], model_reproduces=False)
+                if ctx.stop:
+                    return
         if in_dom and not agreed:
             chk.correspondence_broken("equal on ranges differs from componentwise C17.modelEqual", case,
                                       [m[0] for m in ms], {"equal": eq, "never_equal": ne, "raised": err})
@@ -542,13 +583,22 @@ def run(chk):
     pairs += [X.gen_pair(rng, ext=True) for _ in range(130 * scale)]
     pairs += [X.gen_minmax_pair(rng) for _ in range(30 * scale)]
     pairs += [X.gen_nested_pow_pair(rng) for _ in range(8 * scale)]
+    pairs += [X.gen_fraction_pair(rng) for _ in range(11 * scale)]
+    file_pairs, file_ranges = load_corpus()
+    pairs = file_pairs + pairs
     run_pairs(ctx, b, pairs)
     if not ctx.stop:
-        triples = []
+        triples = list(file_ranges)
         for _ in range(12 * scale):
             tr = [X.gen_pair(rng, ext=False, max_nodes=7) for _ in range(3)]
-            if rng.random() < 0.6:    # make the all-equal verdict frequent
+            r = rng.random()
+            if r < 0.5:    # make the all-equal verdict frequent
                 tr = [(e1, X.rewrite(rng, e1), "same") for e1, _, _ in tr]
+            elif r < 0.65:  # identical ranges up to ONE component that differs by a constant / all by constants
+                c = ("lit", rng.choice([1, 2]))
+                k = rng.randrange(3)
+                tr = [(e1, ("add", X.rewrite(rng, e1), c) if (i == k or r < 0.55) else X.rewrite(rng, e1), "shift")
+                      for i, (e1, _, _) in enumerate(tr)]
             if all(X.size(e) <= 9 and X.degree(e, False) <= 6 and X.degree(e, True) <= 6 for t in tr for e in t[:2]):
                 triples.append(tr)
         run_ranges(ctx, b, triples)
@@ -625,6 +675,16 @@ def replay(payload):
         sols, err = real_solve(b, e1, e2)
         print(f"solve {X.fortran(e1)} = {X.fortran(e2)} for i\nreal code: {sols if err is None else err}")
         bad = check_solutions(e1, e2, sols) if err is None else None
+    elif kind == "range_never_equal":
+        from psyclone.psyir.nodes import Range
+        tr = [(X.from_json(a), X.from_json(c), "") for a, c in payload["triple"]]
+        r1 = Range.create(*[b.node(e1) for e1, _, _ in tr])
+        r2 = Range.create(*[b.node(e2) for _, e2, _ in tr])
+        ne = bool(_sm().never_equal(r1, r2))
+        env = ranges_coincide(tr)
+        print(f"range1 = {payload['range1']}\nrange2 = {payload['range2']}\nreal code: never_equal={ne}")
+        if ne and env is not None:
+            bad = {"observed": f"never_equal() returned True for two ranges that are identical at {env}"}
     print("expected:", payload.get("expected"))
     print("observed:", bad["observed"] if bad else "property holds on the grid")
     return 1 if bad else 0
